@@ -66,6 +66,7 @@ def session_infos(ctx, specs, label):
             if p["k"] == "obj" and 1 <= p["o"] <= nobj and p["sbn"] == 0 and p["esi"] == 0:
                 xf[p["o"] - 1] += 1
         e["xfers"] = xf
+        e["maxpkt"] = max([p["size"] for p in e["pkts"]] + [0])
         e["accepted"] = [a["o"] for a in e["adds"] if a["res"] == "ok"]
         e["cfg"].setdefault("tsi", 1)
         e["cfg"].setdefault("par", 0)
@@ -81,7 +82,7 @@ def gen_chan(ctx, family, infos, maxn=13, timeout=1800, sel=None):
     rows = [i for i in infos if (sel is None or sel(i)) and not i.get("skip")]
     # the generator only needs the packet structure
     write_ndjson(sess_file, [{"sid": i["sid"], "cfg": {"fdt_dur": i["cfg"].get("fdt_dur", 3600)},
-                              "pkts": [{"k": p["k"], "o": p["o"], "id": p["id"]} for p in i["pkts"]]} for i in rows])
+                              "pkts": [{"k": p["k"], "o": p["o"], "id": p["id"], "sbn": p["sbn"], "esi": p["esi"]} for p in i["pkts"]]} for i in rows])
     cfg = ctx.path("genchan-%s.cfg" % family)
     with open(cfg, "w") as f:
         f.write('SPECIFICATION Spec\nCONSTANTS Mode = "chan" Family = "%s" MaxN = %d\nINVARIANT Emit\nCHECK_DEADLOCK FALSE\n' % (family, maxn))
@@ -184,7 +185,7 @@ def _one_chunk(ctx, idx, chunk, label, specs_file, infos_by_sid, monitor, limit_
     intern.table = dict(ctx.rx_intern.table)
     fams = {b["beh"]: b.get("fam", "") for b in chunk}
     stats = _post_rx(raw, tr, [infos_by_sid[s] for s in used if s in infos_by_sid], intern, fams)
-    res = tlc(ctx, monitor, workers=1, trace=tr, timeout=3000, env={"JAVA_TOOL_OPTIONS": JAVA_OPTS_TRACE + " -Xmx4g"})
+    res = tlc(ctx, monitor, workers=1, trace=tr, timeout=900, env={"JAVA_TOOL_OPTIONS": JAVA_OPTS_TRACE + " -Xmx4g"})
     tlc_must_pass(ctx, res, "%s on %s chunk %d" % (monitor, label, idx))
     if os.environ.get("VERIF_KEEP_WORK") != "1":
         for p in (inp, raw, tr):
@@ -222,13 +223,15 @@ def run_rx(ctx, specs, infos, behs, label, monitor="Mon_Receiver", chunk_size=40
             for h in hangs:
                 ctx.violations.append({"property": "C04", "what": "receiver-call-did-not-return-in-bounded-time", "beh": h["beh"],
                                        "line": h["op"], "witness": h, "behaviour": behs[h["beh"]] if 0 <= h["beh"] < len(behs) else None,
-                                       "session": specs[behs[h["beh"]].get("sid", 0)] if 0 <= h["beh"] < len(behs) else None, "source": label})
+                                       "session": specs[behs[h["beh"]].get("sid", 0)] if 0 <= h["beh"] < len(behs) else None,
+                                       "sessions": {str(x[0]): specs[x[0]] for x in behs[h["beh"]].get("streams", [])} if 0 <= h["beh"] < len(behs) else {}, "source": label})
             for v in res["viol"]:
                 v = dict(v)
                 bid = v.get("beh")
                 b = behs[bid] if isinstance(bid, int) and 0 <= bid < len(behs) else None
                 v["behaviour"] = b
                 v["session"] = specs[b.get("sid", 0)] if b and b.get("sid", 0) < len(specs) else None
+                v["sessions"] = {str(x[0]): specs[x[0]] for x in b.get("streams", [])} if b else {}
                 v["source"] = label
                 ctx.violations.append(v)
     if behs and len(ctx.samples) < 3:
